@@ -342,6 +342,45 @@ def run_long(task):
     return {"n": n, "violations": list(viols.values())}
 
 
+def run_crosshunk(task):
+    """lines of different hunks are never partners: a hunk ending in removed lines followed by a hunk starting with
+    similar added lines (zero-context diffs) shows no emphasis, whatever the hunk header style"""
+    deadline, = task
+    drv = explore.get_driver()
+    viols = {}
+    n = 0
+    head = b"diff --git a/f b/f\n--- a/f\n+++ b/f\n"
+    inputs = []
+    for a, b in (("x tok a", "x tak a"), ("foo bar baz", "foo bar qux"), ("same", "same")):
+        inputs.append(head + b"@@ -1 +0,0 @@\n-" + a.encode() + b"\n@@ -5,0 +4 @@\n+" + b.encode() + b"\n")
+        inputs.append(head + b"@@ -1,2 +1 @@ fn f()\n c\n-" + a.encode() + b"\n@@ -9 +8,2 @@ fn g()\n+" + b.encode() + b"\n d\n")
+    for hh in ("110", "omit", "raw", "syntax", "file line-number 110"):
+        for extra in ({}, {"line-numbers": True}, {"side-by-side": True, "width": "80"}, {"max-line-distance": "1"},
+                      {"line-buffer-size": "1"}):
+            o = {"hunk-header-style": hh, "hunk-header-decoration-style": "none"}
+            o.update(extra)
+            args = build_args(base_opts(o))
+            cid = drv.mkconfig(args)
+            res = drv.render(cid, inputs)
+            drv.drop(cid)
+            for inp, r in zip(inputs, res):
+                n += 1
+                if r.panic:
+                    raise MachineryError("panic: " + r.panic)
+                bad = None
+                for row in term.decode(r.out):
+                    for t, st in row.runs:
+                        if t.strip() and obs.classify_style(st) in ("minus_emph", "plus_emph", "minus_non_emph", "plus_non_emph"):
+                            bad = "text %r of a line whose only possible partner is in another hunk is styled as part " \
+                                  "of a pair (%s)" % (t, obs.classify_style(st))
+                if bad and "cross-hunk-pair" not in viols:
+                    v = Violation("cross-hunk-pair", bad, inp.split(b"\n")[:-1])
+                    v.args = args
+                    v.config_label = "hunk-header-style=%s,%s" % (hh, extra)
+                    viols["cross-hunk-pair"] = v
+    return {"n": n, "violations": list(viols.values())}
+
+
 ASSUMPTIONS = [
     "token alphabet {a, b, c, blank, '.', 'é', two blanks}; pairs exhaustive up to k tokens; the "
     "statement's 'randomly for long realistic lines' is sampling (another technique family): not "
@@ -378,6 +417,7 @@ def main(tier):
     res2 = explore.pmap(run_pairing, [("pairing,distance=%s" % d, d, (i, 6), deadline)
                                       for d in DISTANCES for i in range(6)])
     res3 = explore.pmap(run_long, [(d, deadline) for d in DISTANCES])
+    res3 += explore.pmap(run_crosshunk, [(deadline,)])
     res2 = res2 + [dict(r, pairs=0) for r in res3]
     n = sum(r["n"] for r in res)
     nemph = sum(r["emph"] for r in res)
